@@ -939,6 +939,37 @@ package bigbuff
 //@   at-call (*Workers).Call#0 forward : arg0 == w && arg1 == count && arg2 == value
 //@   ensures result : ret0 == ilast("(*Workers).Call", 0) && ret1 == ilast("(*Workers).Call", 1)
 
+//@ func MustCall
+//@   props C19
+//@   maypanic
+//@   requires typed : caller != nil
+//@   # MustCall is Call that panics exactly when Call reports an error
+//@   ensures quiet : icalls("Call") == 1 && ilast("Call", 0) == nil
+
+//@ func valueOfNotifierTarget
+//@   props C15
+//@   maypanic
+//@   # only channels the notifier can send to are accepted
+//@   ensures sendable : rv_valid(ret) && rt_kind(rv_type(ret)) == 18 && ret == rv_of(target)
+
+//@ func NewChanCaster
+//@   props C08
+//@   ensures fresh : ret != nil && ret.C == channel
+
+//@ func MinDuration
+//@   props C09
+//@   panics baddur : d <= 0
+//@   panics nilfn : fn == nil
+//@   ensures wrapped : ret != nil && captured(ret, fn) == fn && captured(ret, d) == d
+
+//@ func MinDuration$1
+//@   props C09
+//@   modular
+//@   maypanic
+//@   requires wired : fn != nil
+//@   # the wrapped function runs exactly once and its results are returned unchanged
+//@   ensures once : calls(fn) == 1 && value == lastres(fn, 0) && err == lastres(fn, 1)
+
 // ---------------------------------------------------------------------------------------------------
 // C19 — Callable (callable.go), relative to the trusted specification of package reflect (rt_* / rv_*
 // are its uninterpreted functions; kinds: 18 chan, 19 func, 20 interface, 21 map, 22 pointer, 23 slice).
